@@ -23,7 +23,7 @@ VARIABLES
   \* @type: Int;
   p,        \* number of plateaus (>= 2)
   \* @type: Int;
-  period,   \* nAnn \div p  (accepted configurations: >= 1)
+  period,   \* nAnn \div (p - 1)  (accepted configurations: >= 1), as Period(c) of Saem.tla
   \* @type: Int;
   tnum,     \* initial temperature tnum / tden > 1
   \* @type: Int;
@@ -34,7 +34,7 @@ VARIABLES
   j         \* decrements applied so far
 
 Params == /\ n >= 1 /\ nAnn >= 0 /\ nAnn <= n /\ p >= 2
-          /\ period >= 1 /\ period * p <= nAnn /\ nAnn < (period + 1) * p       \* period = nAnn \div p
+          /\ period >= 1 /\ period * (p - 1) <= nAnn /\ nAnn < (period + 1) * (p - 1)       \* period = nAnn \div (p - 1)
           /\ tden >= 1 /\ tnum > tden
 Any == /\ n \in Int /\ nAnn \in Int /\ p \in Int /\ period \in Int /\ tnum \in Int /\ tden \in Int
 Init == Any /\ k = 0 /\ j = 0 /\ Params
@@ -53,10 +53,10 @@ Num(jj) == tnum * (p - 1) - jj * (tnum - tden)
 Den == tden * (p - 1)
 IsOne(jj) == jj >= p - 1 \/ Num(jj) <= Den
 \* consequences of the inductive invariant
-Safe == /\ (k >= nAnn => j >= p)                    \* hence IsOne(j): the temperature is exactly 1 after the annealing phase
+Safe == /\ (k >= nAnn => j >= p - 1)                \* hence IsOne(j): the temperature is exactly 1 after the annealing phase
         /\ (k >= nAnn => IsOne(j))
         /\ (~IsOne(j) => Num(j) > Den)                \* never below 1
         /\ Num(j + 1) <= Num(j)                       \* one more decrement never raises the temperature
 \* deliberately false (the harness requires Apalache to refute it: the obligations above are not vacuous)
-Bogus == j < p
+Bogus == j < p - 1
 =============================================================================
